@@ -75,9 +75,9 @@ class MonitoredExecutor(Executor):
     def _execute_command(self, subroutine_id, command):
         pc = self._program_counters[subroutine_id]
         if isinstance(command, DebugInstruction):
-            self._program_counters[subroutine_id] += 1  # comments of debug transpilations
+            # comments of debug transpilations: the base executor's own business (it skips them); not a step of the program
+            yield from super()._execute_command(subroutine_id, command)
             return
-            yield  # pragma: no cover
         before = self._host_view(subroutine_id) if self.watch_host_view else None
         try:
             yield from super()._execute_command(subroutine_id, command)
